@@ -77,7 +77,10 @@ def centre_of_gravity(img, threshold=0, min_threshold=0, **kwargs):
             # the subtraction below in the unsigned type, where it wraps around)
             thres = numpy.maximum(threshold*img.max(-1).max(-1), min_threshold).astype(float)
             img_temp = img - thres[..., None, None]
-            img = numpy.where(img_temp < 0, 0, img)
+            # (on a copy, by assignment: numpy.where would return a plain ndarray
+            # and drop the mask of a masked stack)
+            img = img.copy()
+            img[img_temp < 0] = 0
 
     if len(img.shape) == 2:
         y_cent, x_cent = numpy.indices(img.shape)
